@@ -83,6 +83,7 @@ func (t *Writer) emitLocked(ev Ev) {
 	}
 	t.w.Write(b)
 	t.w.WriteByte('\n')
+	t.w.Flush() // a crash of the code under test must not lose the events that led to it
 	t.n++
 }
 
